@@ -42,6 +42,9 @@ pub fn set_status(app: tauri::AppHandle, new_status: Status) -> bool {
 # label -> list of (old, new) textual substitutions on BASE; HOLE_x are symbolic
 EDITS = {
     'command-added': [('#[tauri::command]\npub fn get_user', '#[tauri::command]\npub fn HOLE_n(flag: bool) -> bool { flag }\n#[tauri::command]\npub fn get_user')],
+    # edits whose only effect on the generated files is at their end (a writer that compares line by line up to the shorter text misses them)
+    'command-appended': [('    true\n}\n', '    true\n}\n#[tauri::command]\npub fn zz_last(label: String) -> String { label }\n')],
+    'struct-and-command-appended': [('    true\n}\n', '    true\n}\n#[derive(Serialize, Deserialize)]\npub struct Zeta { pub z: i32 }\n#[tauri::command]\npub fn zz_last(z: Zeta) -> Zeta { z }\n')],
     'command-removed': [('#[tauri::command]\npub fn get_user(user_id: i32) -> Result<User, String> { todo!() }\n', '')],
     'command-renamed': [('pub fn get_user', 'pub fn HOLE_n')],
     'param-type': [('user_id: i32', 'user_id: String')],
